@@ -79,7 +79,8 @@ func (w *World) verifyContract(con *Contract, opts *RunOpts) (res *FuncResult) {
 			e.scenario = strings.Join(sc.Desc, " ")
 			// preconditions
 			for _, rq := range con.clauses("requires") {
-				ctx := &EvalCtx{sp: w.specs, env: sc.Env, st: st, old: st, assume: true, ex: e, origin: con.Func + "/requires"}
+				var defs []*T
+				ctx := &EvalCtx{sp: w.specs, env: sc.Env, st: st, old: st, assume: true, ex: e, origin: con.Func + "/requires", defs: &defs}
 				var lem []*Lemma
 				ctx.lemmas = &lem
 				t := ctx.evalClause(rq.Expr)
@@ -88,6 +89,9 @@ func (w *World) verifyContract(con *Contract, opts *RunOpts) (res *FuncResult) {
 					return
 				}
 				st.assume(t)
+				for _, d := range defs {
+					st.assume(d)
+				}
 			}
 			res.Stats.Shapes++
 			pre := st.snapshot()
@@ -115,7 +119,7 @@ func (w *World) verifyContract(con *Contract, opts *RunOpts) (res *FuncResult) {
 				pathNo++
 				res.Stats.Paths++
 				e.scenario = strings.Join(sc.Desc, " ")
-				if opts.Cover {
+				if opts.Cover && res.Stats.Paths <= 8 {
 					cov := &Oblig{Kind: "cover", Name: con.Func + "/cover", Goal: tFalse, Expect: "sat", PathNo: pathNo}
 					e.emit(o.St, cov)
 				}
@@ -134,9 +138,10 @@ func (w *World) verifyContract(con *Contract, opts *RunOpts) (res *FuncResult) {
 					}
 					name := con.Func + "/ensures#" + label
 					var sk []*T
-					ctx := &EvalCtx{sp: w.specs, env: env2, st: o.St, old: pre, skolems: &sk, ex: e, origin: name}
+					var defs []*T
+					ctx := &EvalCtx{sp: w.specs, env: env2, st: o.St, old: pre, skolems: &sk, ex: e, origin: name, defs: &defs}
 					goal := ctx.evalClause(en.Expr)
-					ob := &Oblig{Kind: "ensures", Name: name, Goal: goal, Tags: en.Tags, Skolems: sk, PathNo: pathNo, Where: en.Pos}
+					ob := &Oblig{Kind: "ensures", Name: name, Goal: goal, Tags: en.Tags, Skolems: sk, PathNo: pathNo, Where: en.Pos, Defs: defs}
 					if len(ob.Tags) == 0 {
 						ob.Tags = con.Props
 					}
@@ -147,8 +152,10 @@ func (w *World) verifyContract(con *Contract, opts *RunOpts) (res *FuncResult) {
 						if kf.Obligation != name {
 							continue
 						}
-						cctx := &EvalCtx{sp: w.specs, env: env2, st: pre, old: pre, ex: e, origin: name, skolems: &sk}
+						var cdefs []*T
+						cctx := &EvalCtx{sp: w.specs, env: env2, st: pre, old: pre, ex: e, origin: name, skolems: &sk, defs: &cdefs}
 						carve := cctx.evalCarve(kf.CarveExpr, sk)
+						ob.Assume = append(ob.Assume, cdefs...)
 						// (1) outside the carve-out the goal must hold
 						ob.Assume = append(ob.Assume, mkNot(carve))
 						ob.Carved = true
@@ -163,6 +170,31 @@ func (w *World) verifyContract(con *Contract, opts *RunOpts) (res *FuncResult) {
 						can.Carved = false
 						res.Obs = append(res.Obs, &can)
 					}
+				}
+				// result shapes claimed by `shape resultK = ...` are obligations here
+				for _, scl := range con.clauses("shape") {
+					eq := strings.Index(scl.Raw, "=")
+					path := strings.TrimSpace(scl.Raw[:eq])
+					if !strings.HasPrefix(path, "result") {
+						continue
+					}
+					var k int
+					fmt.Sscanf(path, "result%d", &k)
+					if k >= len(o.Rets) {
+						panic(specPanic{scl.Pos + ": no such result"})
+					}
+					var alts []*T
+					for _, a := range strings.Split(scl.Raw[eq+1:], "|") {
+						n, err := parseExpr(strings.TrimSpace(a), scl.Pos)
+						if err != nil {
+							panic(specPanic{err.Error()})
+						}
+						ctx := &EvalCtx{sp: w.specs, env: env2, st: o.St, old: pre, ex: e}
+						alts = append(alts, ctx.valEq(n, o.Rets[k], ctx.eval(n)))
+					}
+					ob := &Oblig{Kind: "ensures", Name: con.Func + "/result-shape#" + path, Goal: mkOr(alts...), PathNo: pathNo, Tags: con.Props, Where: scl.Pos}
+					ob.ctx = &obCtx{shape: sc, pre: pre, post: o.St, rets: o.Rets, con: con}
+					e.emit(o.St, ob)
 				}
 				// frame: the input footprint is unchanged except where assigns says so
 				frame := frameGoal(pre, o.St, exempt)
